@@ -83,20 +83,25 @@ Definition k15_header : winput :=
   {| wi_net_version := [48; 46; 54]; wi_map_name := [100; 109; 49]; wi_sha256 := None; wi_map_crc := 1;
      wi_kind := Client; wi_length := 0; wi_timestamp := [50; 48]; wi_map := [] |}.
 Theorem C15_K15_refuted :
-  exists file, write_all k15_header [CTick 1 true; CMessage (repeat 0 (Z.to_nat 65537))] = Ok file
-    /\ winput_ok k15_header = true
-    /\ match read_all file with
+  winput_ok k15_header = true
+  /\ match write_all k15_header [CTick 1 true; CMessage (repeat 0 (Z.to_nat 65537))] with
+     | Ok file =>
+       match read_all file with
        | Ok (_, _, (chunks, (Err EMsgTooLong, _))) => chunks = [(CTick 1 true, [])]
        | _ => False
-       end.
-Proof.
-  destruct (write_all k15_header [CTick 1 true; CMessage (repeat 0 (Z.to_nat 65537))]) as [file| | |] eqn:E.
-  - exists file. split; [reflexivity|]. split; [reflexivity|].
-    revert E. vm_compute. intros E. injection E as <-. vm_compute. reflexivity.
-  - exfalso. revert E. vm_compute. discriminate.
-  - exfalso. revert E. vm_compute. discriminate.
-  - exfalso. revert E. vm_compute. discriminate.
-Qed.
+       end
+     | _ => False
+     end
+  /\ match write_all k15_header [CTick 1 true; CMessage (repeat 0 (Z.to_nat 65536))] with
+     | Ok file =>
+       match read_all file with
+       | Ok (_, _, ([(CTick 1 true, []); (CMessage m, [])], (Ok _, []))) =>
+         zlen m = 65536 /\ forallb (Z.eqb 0) m = true
+       | _ => False
+       end
+     | _ => False
+     end.
+Proof. vm_compute. repeat split. Qed.
 
 (* K15H (known finding): Writer::new also accepts header values the format cannot hold - a NUL
    inside a string comes back truncated with a warning, a negative length makes the file
@@ -165,23 +170,17 @@ Theorem C15_K15W_refuted :
   let sz := osize_of [(5, 3)] in
   let ops := [HSnap 1 [(Snap.Ordinal 5, 1, [1; 2; 3]); (Snap.Ordinal 5, 1, [7; 7; 7])];
               HSnap 2 [(Snap.Ordinal 5, 2, [4; 5; 6])]] in
-  exists w b hb,
-    hrun sz hwriter_new ops = (w, b, [Err (HSnapBuilder Snap.BDuplicateKey); Ok tt])
-    /\ writer_new k15_header = Ok hb
+  match hrun sz hwriter_new ops, writer_new k15_header with
+  | (_, b, rs), Ok hb =>
+    rs = [Err (HSnapBuilder Snap.BDuplicateKey); Ok tt]
     /\ match hread_all sz (hb ++ b) with
        | Ok (_, _, (chunks, (Ok _, _))) =>
          map fst chunks = [HCTick 2; HCSnapshot [(Snap.Ordinal 5, 1, [1; 2; 3]); (Snap.Ordinal 5, 2, [4; 5; 6])]]
        | _ => False
-       end.
-Proof.
-  cbv zeta.
-  destruct (hrun (osize_of [(5, 3)]) hwriter_new
-    [HSnap 1 [(Snap.Ordinal 5, 1, [1; 2; 3]); (Snap.Ordinal 5, 1, [7; 7; 7])]; HSnap 2 [(Snap.Ordinal 5, 2, [4; 5; 6])]])
-    as [[w b] rs] eqn:E.
-  destruct (writer_new k15_header) as [hb| | |] eqn:Eh; try (exfalso; revert Eh; vm_compute; discriminate).
-  exists w, b, hb. revert E Eh. vm_compute. intros E Eh. injection E as <- <- <-. injection Eh as <-.
-  split; [reflexivity|]. split; [reflexivity|]. vm_compute. reflexivity.
-Qed.
+       end
+  | _, _ => False
+  end.
+Proof. vm_compute. repeat split. Qed.
 
 (* non-vacuity: a header that meets winput_ok; the chunk bytes the real writer produces for a
    small recording (key-frame tick 5, a snapshot, inline tick +1, a 5-byte message, absolute tick
